@@ -18,6 +18,11 @@ def main():
     tier = args[1] if len(args) > 1 else os.environ.get('VERIF_TIER', 'quick')
     assert tier in ('quick', 'thorough')
     logging.disable(logging.CRITICAL)
+    import golem
+    repo = os.path.realpath(os.environ.get('VERIF_REPO', '/repo'))
+    if not os.path.realpath(golem.__file__).startswith(repo + os.sep):
+        print('harness error: golem imported from %s, expected under %s' % (golem.__file__, repo))
+        sys.exit(2)
     driver = importlib.import_module(pid.lower())
     sys.exit(common.run_check(pid, tier, driver, replay))
 
